@@ -769,3 +769,326 @@ def gen_scenario(rng, profile="mixed"):
         ops.append(("is",))
     ops.append(("release",))
     return Scenario(ops, "gen")
+
+
+# --------------------------------------------------------------------------------------------------
+# property oracles on the implementation trace (independent of the model)
+# --------------------------------------------------------------------------------------------------
+def split_by_op(sc, toks):
+    """Align the canonical trace with the scenario's ops -> list of (op, [tokens])."""
+    res = []
+    i = 0
+    n = len(toks)
+    for o in sc.ops:
+        k = o[0]
+        seg = []
+        if k == "flags":
+            if i < n and toks[i].startswith("F="):
+                seg.append(toks[i]); i += 1
+        elif k == "connect":
+            while i < n and toks[i] == "X":
+                seg.append(toks[i]); i += 1
+            if i < n and toks[i].startswith("R="):
+                seg.append(toks[i]); i += 1
+        elif k == "run":
+            while i < n:
+                seg.append(toks[i]); i += 1
+                if seg[-1] == "|":
+                    break
+        elif k == "is":
+            if i < n and toks[i].startswith("S="):
+                seg.append(toks[i]); i += 1
+        elif k == "release":
+            seg = toks[i:]
+            i = n
+        res.append((o, seg))
+    return res, toks[i:]
+
+
+class Observer:
+    """Replays scenario + implementation trace and records, per connection attempt, what an outside
+    observer knows: configuration in force, offers received, notifications, wire elements."""
+
+    def __init__(self, sc, toks):
+        self.viol = {"C01": [], "C02": [], "C03": [], "C13": []}
+        self.sc = sc
+        segs, rest = split_by_op(sc, toks)
+        if rest:
+            self.viol["C01"].append("trace has tokens no operation accounts for: %s" % " ".join(rest[:6]))
+        flags = 0
+        cfg = dict(node=0, res=0, cert=0, legacy=0)
+        att = None     # current attempt
+        kind = None
+        for o, seg in segs:
+            k = o[0]
+            if k == "jid" and att is None:
+                cfg["node"], cfg["res"] = o[1], o[2]
+                cfg["jid"] = 1
+            elif k == "cert" and att is None:
+                cfg["cert"] = o[1]
+            elif k == "flags":
+                m = re.match(r"F=(-?\d+)/(\d+)", seg[0]) if seg else None
+                if not m:
+                    self.viol["C13"].append("set_flags produced no result")
+                    continue
+                rc, rb = int(m.group(1)), int(m.group(2))
+                w = o[1]
+                conflict = (w & 1) and (w & (2 | 4 | 8))
+                if att is not None and att["alive"]:
+                    if rc == 0 or rb != flags:
+                        self.viol["C13"].append("set_flags(%d) while not disconnected: rc=%d readback=%d (was %d)" % (w, rc, rb, flags))
+                else:
+                    if rc == 0 and rb != w:
+                        self.viol["C13"].append("set_flags(%d) accepted but reads back %d" % (w, rb))
+                    if (rc == 0) != (not conflict and 0 <= w < 256):
+                        self.viol["C13"].append("set_flags(%d): rc=%d but conflict=%s" % (w, rc, bool(conflict)))
+                flags = rb
+            elif k == "connect":
+                rc = None
+                for t in seg:
+                    if t.startswith("R="):
+                        rc = int(t[2:])
+                if att is not None and att["alive"]:
+                    if rc == 0:
+                        self.viol["C13"].append("connect accepted while an attempt is in progress")
+                    continue
+                if rc == 0:
+                    if o[1] == "component":
+                        flags |= 1
+                    kind = o[1]
+                    att = dict(kind=o[1], flags=flags, alive=True, connects=0, disconnects=0, rawc=False, cfg=dict(cfg),
+                               offers=dict(tls=False, mechs=set(), zlib=False, bind=False, session=False, sm=False),
+                               strong=False, feat_seen=False, depth=0, nest=0, dead=False, reading=False, queue=[],
+                               success=False, bound=False, resumed=False, legacy_ok=False, hs=False, hdr_rx=False,
+                               serr=None, n=len(getattr(self, "attempts", [])))
+                    self.attempts = getattr(self, "attempts", []) + [att]
+                    if o[1] == "raw":
+                        self.rawsticky = True
+                    if getattr(self, "rawsticky", False):
+                        att["kind"] = "raw"
+            elif k == "run":
+                if att is None:
+                    continue
+                self._run(att, o, seg)
+            elif k == "is":
+                self._is(att, seg)
+            elif k == "release":
+                if att is not None:
+                    self._tokens(att, seg, [])
+        for a in getattr(self, "attempts", []):
+            if a["alive"]:
+                self.viol["C13"].append("attempt %d never ended with a disconnect notification (connects=%d)" % (a["n"], a["connects"]))
+
+    # -- one loop iteration
+    def _run(self, att, o, seg):
+        rd = o[1]
+        if att["alive"] and rd is not None:
+            att["queue"].append(rd)
+        wrote_hdr = any(t in ("W:hdr", "W:hdr+from", "T:hdr", "T:hdr+from") for t in seg)
+        items = []
+        if att["alive"] and att["reading"] and att["queue"]:
+            # the implementation reads one chunk per iteration once the TCP connection is established
+            pass
+        self._tokens(att, seg, items, wrote_hdr)
+
+    def _tokens(self, att, seg, items, wrote_hdr=False):
+        fl = att["flags"]
+        # 1. what is written at the start of the iteration is judged against what was received before
+        idx = 0
+        for t in seg:
+            if t.startswith("W:") or t.startswith("T:"):
+                self._wire(att, t[0] == "T", t[2:])
+        # 2. parser restart is visible as a new stream header written by the client
+        if wrote_hdr:
+            att["depth"], att["nest"], att["dead"], att["feat_seen"] = 0, 0, False, False
+        # 3. the chunk read in this iteration (one per iteration, in order, once reading has started:
+        #    for stream-oriented connections from the iteration in which the first header is written)
+        if wrote_hdr:
+            att["reading"] = True
+        if att["alive"] and att["reading"] and att["queue"]:
+            rd = att["queue"].pop(0)
+            if isinstance(rd, tuple):
+                self._receive(att, rd[1])
+        # raw connections: reading starts in the iteration after the one that reported RAW_CONNECT
+        if "E:raw_connect" in seg:
+            att["reading"] = True
+        # 4. notifications
+        seen_disc = False
+        up = att["connects"] > 0 or att["rawc"]
+        for t in seg:
+            if t == "E:connect":
+                if not att["alive"]:
+                    self.viol["C13"].append("connect notification after the attempt's disconnect")
+                att["connects"] += 1
+                up = True
+                if att["kind"] != "raw" and att["connects"] > 1:
+                    self.viol["C03"].append("connection reported up %d times" % att["connects"])
+                    self.viol["C13"].append("more than one 'connected' for one attempt")
+                if not self._connect_justified(att):
+                    self.viol["C03"].append("reported connected without successful negotiation (kind=%s success=%s bound=%s resumed=%s legacy=%s hs=%s)" %
+                                            (att["kind"], att["success"], att["bound"], att["resumed"], att["legacy_ok"], att["hs"]))
+            elif t == "E:raw_connect":
+                att["rawc"] = True
+                up = True
+            elif t.startswith("E:disconnect"):
+                att["disconnects"] += 1
+                if att["disconnects"] > 1:
+                    self.viol["C13"].append("two disconnect notifications for one attempt")
+                    self.viol["C01"].append("two disconnect notifications for one connection")
+                att["alive"] = False
+                m = re.match(r"E:disconnect\((-?\d+)(?:,se=(\d+),(\d))?\)", t)
+                rep = (int(m.group(2)), int(m.group(3))) if m.group(2) is not None else None
+                if att["kind"] != "raw" and rep != att["serr"]:
+                    self.viol["C13"].append("stream error reported %s but the server sent %s" % (rep, att["serr"]))
+            elif t in ("H:user", "H:timed"):
+                if not up or not att["alive"]:
+                    self.viol["C03"].append("user handler ran before the connection was reported up")
+            elif t in ("W:user", "T:user"):
+                pass  # judged in _wire
+
+    def _wire(self, att, tls, w):
+        fl, of, cfg = att["flags"], att["offers"], att["cfg"]
+        cred = w.startswith("auth=") or w in ("response", "legacy")
+        if cred and (fl & 2) and not tls:
+            self.viol["C02"].append("mandatory TLS but %s written in the clear" % w)
+        if w == "starttls":
+            if fl & 1:
+                self.viol["C02"].append("TLS disabled but STARTTLS requested")
+            if not of["tls"]:
+                self.viol["C03"].append("STARTTLS requested without an offer on this connection")
+        if w.startswith("auth="):
+            m = w[5:]
+            if m not in of["mechs"]:
+                self.viol["C03"].append("mechanism %s requested but not offered on this connection (offered %s)" % (m, sorted(of["mechs"])))
+            if m == "PLAIN" and att["strong"]:
+                self.viol["C02"].append("PLAIN used although a stronger supported mechanism was offered on this connection")
+        if w == "legacy" and (not (fl & 16) or att["kind"] != "client"):
+            self.viol["C02"].append("legacy authentication without the flag / on a non-client connection")
+        if w == "compress" and not of["zlib"]:
+            self.viol["C03"].append("compression requested without an offer")
+        if w.startswith("bind"):
+            if not of["bind"]:
+                self.viol["C03"].append("bind requested without an offer")
+            if (w == "bind+res") != bool(cfg["res"]):
+                self.viol["C03"].append("bind request %s but configured resource present=%s" % (w, cfg["res"]))
+        if w == "session" and not of["session"]:
+            self.viol["C03"].append("session requested without an offer")
+        if w in ("enable", "enable+resume", "resume") and not of["sm"]:
+            self.viol["C03"].append("%s requested without a stream-management offer" % w)
+        if w == "hdr+from" and not tls:
+            self.viol["C03"].append("stream header reveals the user's address on an unprotected stream")
+        if w == "user" and not (att["connects"] > 0 or att["rawc"]):
+            self.viol["C03"].append("a user stanza reached the wire before the connection was reported up")
+
+    def _receive(self, att, items):
+        cert = att["cfg"]["cert"]
+        for it in items:
+            if att["dead"]:
+                return
+            if it == "g":
+                att["dead"] = True
+                return
+            if it in ("h1", "h0"):
+                if att["depth"] == 0:
+                    att["depth"] = 1
+                    att["feat_seen"] = False
+                    att["hdr_rx"] = True
+                else:
+                    att["nest"] += 1
+                continue
+            if it == "z":
+                if att["nest"] > 0:
+                    att["nest"] -= 1
+                elif att["depth"] == 1:
+                    att["depth"] = -1   # document closed
+                else:
+                    att["dead"] = True
+                continue
+            if att["depth"] == -1:
+                att["dead"] = True
+                return
+            if att["depth"] == 0:
+                if it.ns == "streams":
+                    att["dead"] = True      # unbound "stream:" prefix
+                    return
+                att["depth"] = -1
+                continue
+            if att["nest"] > 0:
+                continue
+            # a top-level element of the open stream
+            f = it.f
+            if it.ns == "streams" and it.name == "features":
+                of = att["offers"]
+                of["tls"] |= bool(f["starttls"]); of["mechs"] |= set(f["mechs"]); of["zlib"] |= bool(f["zlib"])
+                of["bind"] |= bool(f["bind"]); of["session"] |= bool(f["session"]); of["sm"] |= bool(f["sm"])
+                if not att["feat_seen"]:
+                    att["feat_seen"] = True
+                    if any(m in STRONG or (m == "EXTERNAL" and cert) for m in f["mechs"]):
+                        att["strong"] = True
+            if it.ns == "sasl" and it.name == "success":
+                att["success"] = True
+            if it.eid == "bind" and it.typ == "result":
+                att["bound"] = True
+            if it.eid == "auth" and it.typ == "result" and it.name == "iq":
+                att["legacy_ok"] = True
+            if it.ns == "sm" and it.name == "resumed":
+                att["resumed"] = True
+            if it.name == "handshake":
+                att["hs"] = True
+            if it.ns == "streams" and it.name == "error":
+                att["serr"] = (f["cond"], f["text"])
+
+    def _connect_justified(self, att):
+        if att["kind"] == "raw":
+            return att["hdr_rx"]
+        if att["kind"] == "component":
+            return att["hs"]
+        return (att["success"] and (att["bound"] or att["resumed"])) or att["legacy_ok"]
+
+    def _is(self, att, seg):
+        if not seg:
+            return
+        m = re.match(r"S=(\d)(\d)(\d),sec=(\d)", seg[0])
+        cing, ced, dis = int(m.group(1)), int(m.group(2)), int(m.group(3))
+        if cing + ced + dis != 1:
+            self.viol["C13"].append("state predicates not a partition: %s" % seg[0])
+        alive = att is not None and att["alive"]
+        up = alive and (att["connects"] > 0 or att["rawc"])
+        exp = (int(alive and not up), int(up), int(not alive))
+        if (cing, ced, dis) != exp:
+            self.viol["C13"].append("state predicates %s disagree with the notifications so far (expected %s%s%s)" % (seg[0], exp[0], exp[1], exp[2]))
+
+
+def judge(chk, pid, results, stream):
+    """Evaluate the oracle for property pid on every result; model-level statement bits too."""
+    CHK_NAMES = ["mandatory", "disabled", "plain", "legacy", "offers", "header_bind", "connect", "user", "restart", "outcome",
+                 "is", "flags", "stream_error", "nocrash"]
+    mine = {"C02": CHK_NAMES[0:4], "C03": CHK_NAMES[4:9], "C13": CHK_NAMES[9:13], "C01": CHK_NAMES[13:]}[pid]
+    for sc, toks, info, mt in results:
+        chk.evaluations += 1
+        chk.count(stream)
+        key = " ".join(toks)
+        if len(toks) > 12:
+            chk.nontrivial.add(hash(key))
+        case = {"label": sc.label, "sim": sc.sim_line(), "model_in": sc.model_line()}
+        if info["crash"]:
+            chk.fail(case, "implementation crashed / hung: %s" % info["crash"][:300], stream)
+            continue
+        for a in info["anomalies"]:
+            chk.fail(case, "harness anomaly %s" % a, stream)
+        obs = Observer(sc, toks)
+        for v in obs.viol[pid][:3]:
+            chk.fail(case, v, stream)
+        if pid == "C01":
+            end = info["end"] or ""
+            m = re.match(r"live=(\d+) allocerr=(\d+) fds=(\d+)/(\d+)", end)
+            if not m:
+                chk.fail(case, "scenario did not run to its end: %r" % end, stream)
+            elif int(m.group(2)) != 0 or m.group(3) != m.group(4):
+                chk.fail(case, "allocator/descriptor misuse at the end of the scenario: %s" % end, stream)
+        mc = info.get("model_checks")
+        if mc:
+            for k, nm in enumerate(CHK_NAMES):
+                if nm in mine and k < len(mc) and mc[k] == "0":
+                    chk.broken.append({"kind": "model-statement", "name": "ok_" + nm,
+                                       "detail": "the executable statement is false on the model run of: " + sc.model_line()[:400]})
